@@ -28,6 +28,7 @@ META = {
     "trusted_base": ["ciborium parse/serialise are inverse on the Value data model"],
 }
 META["decides"] += ' (As built: the from_cbor_bstr <-> cbor_bstr pairing re-checks that cbor_bstr returns the retained bytes untouched; encoder arrays and list-valued map fields are read as sequence values, so loops, extend, collect and iterator chains are equivalent.)'
+META["decides"] += ' The byte-level API (from_slice / to_vec and the tagged pair) is the un-overridden trait defaults composed with these codecs.'
 
 ARRAY_TYPES = ["sign::CoseSignature", "sign::CoseSign", "sign::CoseSign1", "encrypt::CoseRecipient", "encrypt::CoseEncrypt",
                "encrypt::CoseEncrypt0", "mac::CoseMac", "mac::CoseMac0", "context::PartyInfo", "context::SuppPubInfo"]
